@@ -79,8 +79,30 @@ fn strip_fk(cols: &[ColDef]) -> Vec<ColDef> {
 }
 
 pub fn check_case(case: &Case, st: &mut Stats) -> Check {
+    // one case in eight: a name with a letter outside ASCII, in a database
+    // whose code page cannot store that letter.  Such a definition must be
+    // refused, or else come back unaltered like any other.
+    let exotic = (case.close / 3) % 8 == 7;
+    let case = &if exotic {
+        let mut c = case.clone();
+        let letter = ['Ω', 'é', 'ж', '中'][(case.close as usize / 24) % 4];
+        if case.close % 2 == 0 {
+            c.table.insert(1.min(c.table.len()), letter);
+        } else {
+            let n = c.cols.len();
+            let col = &mut c.cols[(case.close as usize / 48) % n];
+            col.name.insert(1.min(col.name.len()), letter);
+        }
+        c
+    } else {
+        case.clone()
+    };
     let buf = SharedBuf::new(Vec::new());
     let mut pkg = Package::create(PackageType::Installer, buf.clone()).map_err(|e| Fail::new(format!("{P} unexpected-error op=Create"), e.to_string()))?;
+    if exotic {
+        pkg.set_database_codepage(if (case.close / 3) % 16 == 7 { msi::CodePage::Windows1252 } else { msi::CodePage::UsAscii });
+        st.class("exotic-name-under-narrow-code-page");
+    }
     let built: Vec<msi::Column> = case.cols.iter().map(|c| c.build()).collect();
     let res = crate::engine::catch(|| pkg.create_table(case.table.as_str(), built)).map_err(|(loc, msg)| Fail::new(format!("{P} panic at={loc}"), format!("create_table panicked: {msg}; definition: {:?}", case)))?;
     let core = in_core(&case.table, &case.cols);
